@@ -349,7 +349,7 @@ def site_worker(a):
     m = Model(pol)
     res = {"viol": [], "stats": {"site_histories": 1, "site_steps": 0, "site_lines_compared": 0, "site_commands": 0, "site_verdicts": 0, "site_address_changes": 0, "site_stats_reports": 0},
            "inconc": [], "hash": vcommon.h(["site", seed, n]), "nontrivial": True, "sample": None}
-    d = daemon.Daemon(b, conf_text(b["moddir"]), leaks=True, env={"VERIF_SITE_POLICIES": pol})
+    d = daemon.Daemon(b, conf_text(b["moddir"]), leaks=not a.get("wrapper"), env={"VERIF_SITE_POLICIES": pol}, wrapper=tuple(a.get("wrapper") or ()), watchdog=120.0 if a.get("wrapper") else 30.0)
     log = []
     try:
         banner = d.start()
